@@ -572,12 +572,49 @@ class RangeAnalysis:
             if mm and ty_bits(mm.group(2)) and ty_bits(mm.group(1)) and ty_bits(mm.group(2)) >= ty_bits(mm.group(1)):
                 return AV(v.pieces, ty_bits(mm.group(2)))
             return self.top()
+        if short == 'contains' and 'Range' in fn and 'RangeInclusive' not in fn and len(args) == 2:
+            # half-open Range<T>::contains: promoted constant (start, end) in declaration order, or a Range{start, end} aggregate
+            rng = strip_ref(args[0])
+            item = strip_ref(args[1])
+            bounds = None
+            if rng[0] == 'agg' and 'Range' in rng[1] and len(rng[2]) == 2:
+                bounds = (rng[2][0], rng[2][1])
+            elif rng[0] == 'cptr' and rng[2] == 0:
+                import json as _json
+                tgt = _json.loads(rng[1])
+                raw = self.facts.mem_bytes(tgt['mem']) if 'mem' in tgt and str(tgt['mem']) in self.facts.mems else None
+                if raw is not None and len(raw) in (2, 4, 8):
+                    w = len(raw) // 2
+                    a_, b_ = int.from_bytes(raw[:w], 'little'), int.from_bytes(raw[w:], 'little')
+                    ty_ = {1: 'u8', 2: 'u16', 4: 'u32'}[w]
+                    bounds = (('c', a_, ty_), ('c', b_, ty_))
+            if bounds is not None:
+                ge = self.binop(('bin', 'Ge', item, bounds[0]))
+                lt = self.binop(('bin', 'Lt', item, bounds[1]))
+                out = []
+                for lo, hi, pl, pr in zip_pieces(ge, lt):
+                    if pl[2] == 'c' and pr[2] == 'c':
+                        out.append((lo, hi, 'c', pl[3] & pr[3]))
+                    else:
+                        out.append((lo, hi, 'T', 0))
+                return AV(out, 1).compact()
+            return self.top(1)
+        if short == 'is_ascii' and fn.startswith('core::num::') and len(args) == 1:
+            return self.binop(('bin', 'Lt', deref_arg(args[0]), ('c', 0x80, 'u8' if 'u8' in fn else 'u16')))
         if short == 'contains' and 'RangeInclusive' in fn and len(args) == 2:
             rng = strip_ref(args[0])
             item = strip_ref(args[1])
             bounds = None
             if rng[0] == 'call' and (rng[1] or '').endswith('::new') and len(rng[2]) == 2:
                 bounds = (rng[2][0], rng[2][1])
+            elif rng[0] == 'cptr' and rng[2] == 0 and '<u16>' in fn:
+                import json as _json
+                tgt = _json.loads(rng[1])
+                raw = self.facts.mem_bytes(tgt['mem']) if 'mem' in tgt and str(tgt['mem']) in self.facts.mems else None
+                if raw is not None and len(raw) == 6 and raw[4] == 0:
+                    a_, b_ = int.from_bytes(raw[0:2], 'little'), int.from_bytes(raw[2:4], 'little')
+                    if a_ <= b_:
+                        bounds = (('c', a_, 'u16'), ('c', b_, 'u16'))
             elif rng[0] == 'cptr' and rng[2] == 0 and '<u8>' in fn + '<u8>':
                 # a promoted RangeInclusive<u8> constant: three bytes (start, end, exhausted = 0)
                 import json as _json
@@ -658,11 +695,30 @@ class RangeAnalysis:
     def phi(self, l):
         """Value of a multiply-assigned local: merge of its definitions, each restricted to the x that
         reach the defining block (only in acyclic bodies, where those sets are final when needed)."""
-        if not self.acyclic or l in self._phi_guard:
+        if l in self._phi_guard:
             return self.top()
         defs = self.body.defs.get(l, [])
         if not defs or any(k not in ('assign', 'call') for _, _, k, _ in defs):
             return self.top()
+        if not self.acyclic:
+            # In a body with loops the reach sets are those of the current lifetime of x (they restart at `entries`, the
+            # definitions of x).  The merge is meaningful only if l is assigned afresh in every lifetime before this use:
+            # no path from an entry to the use avoids all definitions of l.  The sets are not final while the propagation
+            # runs; run() re-sweeps until they are (see there).
+            use = self.cur_block
+            dblocks = {bi for bi, _, _, _ in defs}
+            if use is None or (set(self.entries) & dblocks):
+                return self.top()
+            seen, stack = set(), [e for e in self.entries]
+            while stack:
+                x = stack.pop()
+                if x in seen or x in dblocks:
+                    continue
+                seen.add(x)
+                if x == use:
+                    return self.top()
+                stack.extend(self.body.succ[x])
+            self.used_phi = True
         self._phi_guard.add(l)
         try:
             bits = ty_bits(self.body.locals[l]['ty']) or 64
@@ -676,10 +732,16 @@ class RangeAnalysis:
                     return self.top(bits)
                 covered = covered | r
                 saved = self.res.cur
-                if k == 'call':
-                    v = self.ev(self.res.call(node, bi, 0))
-                else:
-                    v = self.ev(self.res.rvalue(node['rv']))
+                saved_cb = self.cur_block
+                if not self.acyclic:
+                    self.cur_block = bi
+                try:
+                    if k == 'call':
+                        v = self.ev(self.res.call(node, bi, 0))
+                    else:
+                        v = self.ev(self.res.rvalue(node['rv']))
+                finally:
+                    self.cur_block = saved_cb
                 for lo, hi in r.iv:
                     for plo, phi_, kk, a in v.pieces:
                         a0, b0 = max(lo, plo), min(hi, phi_)
@@ -747,6 +809,21 @@ class RangeAnalysis:
                     if s not in inq:
                         heapq.heappush(heap, (order.get(s, 1 << 30), s))
                         inq.add(s)
+            if not heap and getattr(self, 'used_phi', False) and not self.acyclic:
+                # merged locals were evaluated with reach sets that may have grown since: sweep every reached block once more;
+                # the loop ends when a whole sweep adds nothing (the sets only grow), i.e. when they are inductive
+                sweeps = getattr(self, '_sweeps', 0)
+                snap = getattr(self, '_snap', None)
+                cur_snap = {k_: v_ for k_, v_ in self.reach.items()}
+                if snap != cur_snap and sweeps >= 50:
+                    self.mixed.append((b, 'merge re-sweep bound'))
+                if snap != cur_snap and sweeps < 50:
+                    self._snap = cur_snap
+                    self._sweeps = sweeps + 1
+                    for b2 in self.reach:
+                        if self.reach[b2] and b2 not in inq:
+                            heapq.heappush(heap, (order.get(b2, 1 << 30), b2))
+                            inq.add(b2)
 
     def edges(self, b, cur):
         body = self.body
@@ -831,6 +908,11 @@ class RangeAnalysis:
 
 
 # ------------------------------------------------------------------ single-branch predicates
+def deref_arg(a):
+    a = strip_ref(a)
+    return a[1] if a[0] == 'deref' else a
+
+
 def leaves(e):
     """Non-constant leaves of a resolved expression (loads, locals, calls we do not interpret)."""
     k = e[0]
@@ -855,6 +937,12 @@ def leaves(e):
             for a in e[2]:
                 out += leaves(a)
             return out
+        if short == 'contains' and 'Range' in fn and len(e[2]) == 2:
+            it = strip_ref(e[2][1])
+            return leaves(it[1] if it[0] == 'deref' else it)
+        if short == 'is_ascii' and fn.startswith('core::num::') and len(e[2]) == 1:
+            it = strip_ref(e[2][0])
+            return leaves(it[1] if it[0] == 'deref' else it)
         return [e]
     return [e]
 
@@ -966,6 +1054,12 @@ def scalar_predicates(facts, body):
                                                            'in_inclusive_range16', 'in_inclusive_range32'):
             r2 = Resolver(body)
             one(bi, r2.call(t, bi, 0), sp_str(blk['tsp']))
+        elif 'call' in t:
+            fn_ = t['call'].get('fn') or ''
+            sh_ = fn_.rsplit('::', 1)[-1]
+            if (sh_ == 'contains' and 'Range' in fn_ and 'core::ops' in fn_) or (sh_ == 'is_ascii' and fn_.startswith('core::num::')):
+                r2 = Resolver(body)
+                one(bi, r2.call(t, bi, 0), sp_str(blk['tsp']))
     return out
 
 
